@@ -585,8 +585,8 @@ def run(chk, args):
         cases = [f["replay"]["case"] for f in rp.get("failures", []) if "case" in f.get("replay", {})]
         cases += [b["replay"]["case"] for b in rp.get("no_longer_checks", []) if "case" in b.get("replay", {})]
     else:
-        n_route = 1500 if quick else 30000
-        n_ner = 500 if quick else 8000
+        n_route = 1500 if quick else 10000
+        n_ner = 500 if quick else 3000
         cases = [gen_case(rng, malformed=(i % 25 == 24), dense=(i % 3 == 0)) for i in range(n_route)]
         # the hexagon-scan branch needs more than 3 * (1 + 3r(r+1)) route nodes: large fan-out
         for i in range(20 if quick else 300):
